@@ -669,6 +669,35 @@ def empty_none_ok(d=None):
     if d is None:
         d = [2, 3]
     return d
+
+
+def setdefault_shared(edges):
+    reach = {}
+    for sources, targets in edges:
+        reached = set(targets)
+        for node in sources:
+            reach.setdefault(node, reached).update(reached)
+    return reach
+
+
+def setdefault_shared_ok(edges):
+    reach = {}
+    for sources, targets in edges:
+        for node in sources:
+            reach.setdefault(node, set()).update(targets)
+    return reach
+
+
+def consec_pairs(items, link):
+    for a, b in zip(items, items[1:]):
+        link(a, b)
+
+
+def consec_pairs_ok(items, link):
+    from itertools import combinations
+
+    for a, b in combinations(items, 2):
+        link(a, b)
 '''
 
 _PROBE_EXPECT = {
@@ -740,6 +769,10 @@ _PROBE_EXPECT = {
     "pair_len_ok": ("K-PAIRLEN", False),
     "empty_none": ("G-EMPTYNONE", True),
     "empty_none_ok": ("G-EMPTYNONE", False),
+    "setdefault_shared": ("E-SETDEFAULT", True),
+    "setdefault_shared_ok": ("E-SETDEFAULT", False),
+    "consec_pairs": ("G-CONSECPAIR", True),
+    "consec_pairs_ok": ("G-CONSECPAIR", False),
 }
 
 
@@ -751,7 +784,7 @@ def lint_pack_controls(repo: str) -> dict:
     from .effects import check_shared_literals
     from .report import Result
 
-    fns = {"G-STALE": L.check_stale_in_loop, "G-REUSE": L.check_iterator_reuse, "N-FANCYAUG": L.check_fancy_augassign, "G-GROUPBY": L.check_groupby_sorted, "E-SHARED": check_shared_literals, "G-LIVEITER": L.check_mutation_while_iterating, "E-DEFAULTARG": L.check_mutable_defaults, "G-KEYPROJ": L.check_key_projection, "K-OWNER": L.check_id_owner, "G-COUNTERADD": L.check_counter_arith, "G-ZEROBUCKET": L.check_zero_buckets, "G-LENVALID": L.check_len_validated_cache, "G-SHAPEGUESS": L.check_layout_guess, "K-LABELTYPE": L.check_label_type_dispatch, "G-ZIPALIGN": L.check_zip_alignment, "G-TRUTHY0": L.check_truthy_index, "G-PYTRAP": L.check_python_traps, "G-LOSSYKEY": L.check_lossy_keys, "G-TRISTATE": L.check_tristate_flag, "N-TRACEMUL": L.check_trace_of_elementwise, "G-REUSEDREC": L.check_reused_record, "G-LOOPLEAK": L.check_loop_leak, "G-ACCRESET": L.check_accumulator_reset, "G-ARGSWAP": L.check_swapped_arguments, "K-SORTPAIR": L.check_sorted_pair, "K-ROLEMEM": L.check_role_membership, "G-ORFLAG": L.check_or_merged_flag, "G-ORGET": L.check_falsy_fallback, "G-HASHABLE": L.check_hashable_dispatch, "K-PAIRLEN": L.check_len_of_pair, "G-EMPTYNONE": L.check_empty_as_missing}
+    fns = {"G-STALE": L.check_stale_in_loop, "G-REUSE": L.check_iterator_reuse, "N-FANCYAUG": L.check_fancy_augassign, "G-GROUPBY": L.check_groupby_sorted, "E-SHARED": check_shared_literals, "G-LIVEITER": L.check_mutation_while_iterating, "E-DEFAULTARG": L.check_mutable_defaults, "G-KEYPROJ": L.check_key_projection, "K-OWNER": L.check_id_owner, "G-COUNTERADD": L.check_counter_arith, "G-ZEROBUCKET": L.check_zero_buckets, "G-LENVALID": L.check_len_validated_cache, "G-SHAPEGUESS": L.check_layout_guess, "K-LABELTYPE": L.check_label_type_dispatch, "G-ZIPALIGN": L.check_zip_alignment, "G-TRUTHY0": L.check_truthy_index, "G-PYTRAP": L.check_python_traps, "G-LOSSYKEY": L.check_lossy_keys, "G-TRISTATE": L.check_tristate_flag, "N-TRACEMUL": L.check_trace_of_elementwise, "G-REUSEDREC": L.check_reused_record, "G-LOOPLEAK": L.check_loop_leak, "G-ACCRESET": L.check_accumulator_reset, "G-ARGSWAP": L.check_swapped_arguments, "K-SORTPAIR": L.check_sorted_pair, "K-ROLEMEM": L.check_role_membership, "G-ORFLAG": L.check_or_merged_flag, "G-ORGET": L.check_falsy_fallback, "G-HASHABLE": L.check_hashable_dispatch, "K-PAIRLEN": L.check_len_of_pair, "G-EMPTYNONE": L.check_empty_as_missing, "E-SETDEFAULT": L.check_setdefault_shared, "G-CONSECPAIR": L.check_consecutive_pairs}
     ctx = Ctx(repo, "quick", overrides={_PROBE_REL: _PROBE_SRC})
     out = {"controls": [], "broken": []}
     for name, (rule, must) in _PROBE_EXPECT.items():
